@@ -141,7 +141,8 @@ def _evaluate_require(ast, file_path, package_lua, lua_path=None):
         require_path_str = require_path.decode(encoding='utf-8')
 
         # Disallow chars that select files outside of the load path.
-        if b'./' in require_path or require_path.startswith(b'/'):
+        if (b'./' in require_path or require_path.startswith(b'/') or
+                b'..' in require_path.split(b'/')):
             raise LuaBuildError(
                 'require() filename cannot contain "./" or "../" or start '
                 'with "/"', require_token)
